@@ -27,6 +27,15 @@ def c02RowOk (r : OpFact) : Bool :=
 def c02RowStrict (r : OpFact) : Bool :=
   r.ctor != .unknownC && (!r.multiFeeder || r.serialized) && (!r.passThrough || r.serialized)
 
+/-- `emitMode (r :: rest)`: the constructor mode of the subscriber that `r` emits into, when the
+    stages downstream of `r` are `rest` (nearest first) and the final observer is a plain observer. -/
+def emitMode : List OpFact → Option Ctor
+  | [] => none
+  | [r] => some r.ctor
+  | r :: r' :: rest => if r'.passThrough then emitMode (r' :: rest) else some r.ctor
+
+def serializedMode (c : Ctor) : Bool := c == .safeC || c == .evSafeC
+
 /-! ### C08: only the hand-off / time-driven operators emit from a goroutine of their own -/
 
 def asyncByDesign : List String :=
@@ -52,8 +61,8 @@ def knownCtxRows : List (String × String × Prov) :=
     ("RepeatWith", "complete", .lastSeen),
     ("Timeout", "error", .lastSeen),                  -- atomic holder initialised with the subscriber context
     ("DefaultIfEmptyWithContext", "next", .outer),    -- the user-supplied default context (by definition)
-    ("ContextReset", "next", .outer), ("ContextReset", "error", .outer), ("ContextReset", "complete", .outer),
-    ("ToChannel", "next", .todo) ]                    -- KNOWN FINDING: the channel is handed out with context.TODO()
+    ("ContextReset", "next", .outer), ("ContextReset", "error", .outer), ("ContextReset", "complete", .outer) ]
+    -- (`ToChannel` handing its channel out with context.TODO() was repaired: fix commit cb2e183)
 
 def c09RowOk (r : OpFact) : Bool :=
   r.ctxRows.all (fun c => c.prov.good || knownCtxRows.contains (r.name, c.kind, c.prov))
@@ -61,9 +70,9 @@ def c09RowOk (r : OpFact) : Bool :=
 /-! ### C12: no per-operator-value or per-pipeline state written by a subscription -/
 
 def knownStateRows : List (String × String) :=
-  [ ("MergeMapIWithContext", "i"),           -- KNOWN FINDING: index declared in the application scope
-    ("OnErrorResumeNextWith", "finally"),    -- KNOWN FINDING: the captured slice is rewritten per application
-    ("ShareWithConfig", "refCount") ]        -- hot by definition
+  [ ("ShareWithConfig", "refCount") ]        -- hot by definition
+  -- repaired: MergeMapIWithContext's index in the application scope (fix commit 11bf135),
+  -- OnErrorResumeNextWith's captured slice rewritten per application (fix commit fd0e106)
 
 def c12RowOk (r : OpFact) : Bool :=
   r.stateRows.all (fun s => knownStateRows.contains (r.name, s.var))
